@@ -31,3 +31,31 @@ claim("C12",
       "by correspondence, not proved against Rust." + COMMON_NOTE,
       "Coq proof over translated regex + differential correspondence (bounded exhaustive)",
       "DESIGN.md section 6, C12")
+
+
+claim("C01",
+      "Theorem C01_ids_unique_in_range (Coq, closed under the global context), for EVERY tree, configuration, lock "
+      "state, fault oracle and stop point of the driver model: the IDs written into files that reached the disk are "
+      "pairwise different, lie in 1..4294967294 (the counter never wraps; START_REFERENCE_ID is the translated "
+      "constant), and are above every reference of every recognised statement when the lock is absent/disabled/"
+      "corrupt or ahead of the tree; C01_exhaustion_fails: exit 0 implies every statement lacking a reference got "
+      "an ID. The model (Model/Driver.v) is tied to the code by running the real binary and the extracted model on "
+      "the same small-scope and random trees (exact comparison of exit, files, lock, count) and the predicate is "
+      "evaluated directly on the files the binary produced.",
+      "Driver, glue and pest runtime are hand models tied by correspondence only. Overflow of the usize/u32 "
+      "missing-reference counters is ignored (needs 2^32 statements)." + COMMON_NOTE,
+      "Coq proof (induction over the file list with the counter as state) + differential correspondence on the real binary",
+      "DESIGN.md section 6, C01")
+
+claim("C03",
+      "Theorem C03_insert_only (Coq): for EVERY byte string as content of any file of any tree, every configuration, "
+      "fault oracle and stop point, the file after the run is either byte-identical or is the original cut into "
+      "chunks with exactly one token after each chunk, the tokens being those of the entries that lack a reference "
+      "(in order, consecutive IDs, at their byte positions): deleting the tokens gives the original back. Proved "
+      "over the rewriter loop of the driver model for any finder. Tie: real binary vs extracted model on the "
+      "repository's Rust corpus, generated statements and a malformed/mutated stream; the predicate (token deletion "
+      "restores the original; tokens only at statements lacking a reference) is evaluated directly on the bytes.",
+      "What counts as a statement lacking a reference is the finder's answer (C10-C14 decide whether that is right)."
+      + COMMON_NOTE,
+      "Coq proof (loop invariant of the rewriter, weave/zip_new specification) + differential correspondence",
+      "DESIGN.md section 6, C03")
